@@ -179,12 +179,13 @@ func (c *Cursor) Open(ctx context.Context, scope *ReferenceScope, name parser.Id
 	}
 
 	c.mtx.Lock()
-	defer c.mtx.Unlock()
-
 	if c.view != nil {
+		c.mtx.Unlock()
 		return NewCursorOpenError(name)
 	}
+	c.mtx.Unlock()
 
+	// The query runs without the lock: it may itself ask for the status of this cursor.
 	var view *View
 	var err error
 	if c.query.SelectEntity != nil {
@@ -205,6 +206,13 @@ func (c *Cursor) Open(ctx context.Context, scope *ReferenceScope, name parser.Id
 	}
 	if err != nil {
 		return err
+	}
+
+	c.mtx.Lock()
+	defer c.mtx.Unlock()
+
+	if c.view != nil {
+		return NewCursorOpenError(name)
 	}
 
 	c.view = view
@@ -229,12 +237,12 @@ func (c *Cursor) Close(name parser.Identifier) error {
 }
 
 func (c *Cursor) Fetch(name parser.Identifier, position int, number int) ([]value.Primary, error) {
+	c.mtx.Lock()
+	defer c.mtx.Unlock()
+
 	if c.view == nil {
 		return nil, NewCursorClosedError(name)
 	}
-
-	c.mtx.Lock()
-	defer c.mtx.Unlock()
 
 	if !c.fetched {
 		c.fetched = true
@@ -278,11 +286,31 @@ func (c *Cursor) Fetch(name parser.Identifier, position int, number int) ([]valu
 	return list, nil
 }
 
+// lock and unlock guard the status of the cursor against a concurrent FETCH, OPEN or CLOSE.
+// A cursor that was built without a mutex is not shared between goroutines.
+func (c *Cursor) lock() {
+	if c.mtx != nil {
+		c.mtx.Lock()
+	}
+}
+
+func (c *Cursor) unlock() {
+	if c.mtx != nil {
+		c.mtx.Unlock()
+	}
+}
+
 func (c *Cursor) IsOpen() ternary.Value {
+	c.lock()
+	defer c.unlock()
+
 	return ternary.ConvertFromBool(c.view != nil)
 }
 
 func (c *Cursor) IsInRange() (ternary.Value, error) {
+	c.lock()
+	defer c.unlock()
+
 	if c.view == nil {
 		return ternary.FALSE, errCursorClosed
 	}
@@ -293,6 +321,9 @@ func (c *Cursor) IsInRange() (ternary.Value, error) {
 }
 
 func (c *Cursor) Count() (int, error) {
+	c.lock()
+	defer c.unlock()
+
 	if c.view == nil {
 		return 0, errCursorClosed
 	}
@@ -300,5 +331,8 @@ func (c *Cursor) Count() (int, error) {
 }
 
 func (c *Cursor) Pointer() (int, error) {
+	c.lock()
+	defer c.unlock()
+
 	return c.index, nil
 }
